@@ -52,7 +52,9 @@ Known limits
   (edge, id) pairs).  The statement has no clause about the inferred maximum size, so nothing is checked there; the
   ascent clause with a prior is skipped for max_hye_size=None because the objective's scale depends on that value.
 * Supplied u in (B) are strictly positive, or have zeros only where every observed hyperedge keeps a positive Poisson
-  parameter (otherwise the data has probability zero and EM divides by zero - inadmissible).
+  parameter (otherwise the data has probability zero and EM divides by zero) and, when the prior rate is 0, where every
+  affinity entry is determined (two distinct nodes populate the two communities); otherwise the M-step is 0/0 and fit
+  returns NaN - treated as inadmissible input, not as a violation of "finite".
 """
 import itertools
 import math
@@ -109,6 +111,35 @@ class _Collector:
         if not cond:
             self.fail(function, clause, input, expected, observed, key, replay)
         return cond
+
+
+class _Dedup:
+    """Forwards to the real Ctx but records at most two failures per key (Ctx keeps only the first 50 failures in total,
+    so a frequent key must not crowd out a rare one); every evaluation is still counted."""
+
+    def __init__(self, ctx):
+        self._ctx = ctx
+        self._seen = {}
+
+    def __getattr__(self, name):
+        return getattr(self._ctx, name)
+
+    def check(self, cond, function, clause, input, expected=None, observed=None, key=None, replay=None):
+        self._ctx.clause(f"{function}:{clause}")
+        if not cond:
+            self.fail(function, clause, input, expected, observed, key, replay)
+        return cond
+
+    def fail(self, function, clause, input, expected=None, observed=None, key=None, replay=None):
+        key = key or f"{function}:{clause}"
+        n = self._seen.get(key, 0)
+        self._seen[key] = n + 1
+        if n < 2:
+            if isinstance(replay, dict):
+                replay = dict(replay, key=key)
+            self._ctx.fail(function, clause, input, expected, observed, key, replay)
+        else:
+            self._ctx.count("further failures of " + key)
 
 
 def _exc(e):
@@ -675,8 +706,18 @@ def _run_fit(ctx, cfg):
             # admissible only if every observed hyperedge keeps a positive Poisson parameter under any allowed w
             wmin = np.eye(K) if ass else np.ones((K, K))
             Gm = u0 @ wmin @ u0.T
-            if any(sum(Gm[i, j] for i, j in itertools.combinations(sorted(e), 2)) <= 0 for e in data):
-                ctx.case(dict(cfg, skipped="supplied u gives an observed hyperedge probability zero"), nontrivial=False)
+            bad = any(sum(Gm[i, j] for i, j in itertools.combinations(sorted(e), 2)) <= 0 for e in data)
+            if not bad and wp == 0.0:
+                # without a prior the M-step for w_kq is 0/0 when no two distinct nodes populate communities k and q
+                for k in range(K):
+                    for q in range(K):
+                        if ass and k != q:
+                            continue
+                        if sum(u0[i, k] * u0[j, q] for i in range(N) for j in range(N) if i != j) <= 0:
+                            bad = True
+            if bad:
+                ctx.case(dict(cfg, skipped="supplied u gives an observed hyperedge probability zero / leaves an affinity entry undetermined"),
+                         nontrivial=False)
                 return
     if mode in ("w", "both"):
         rng = np.random.default_rng([cfg["pseed"], 152])
@@ -802,7 +843,7 @@ def _numeric_plan(quick, seed):
     import random
     R = random.Random(seed * 7919 + 15)
     plan = []
-    for i in range(40 if quick else 400):
+    for i in range(300 if quick else 3000):
         N = R.randint(2, 6 if quick else 7)
         plan.append(dict(N=N, K=R.randint(1, 3), w=R.choice(["full", "diagonal"]), D=R.randint(2, N),
                          scale=R.choice([0.01, 1.0, 30.0]), pseed=seed * 100000 + i))
@@ -844,6 +885,7 @@ def run(ctx):
 
 
 def _run(ctx):
+    ctx = _Dedup(ctx)
     ctx.rule("(S) every shape N<=%d, K, w full/diagonal, D<=N: real closed forms on symbolic object arrays vs. brute force over "
              "all subsets; (N) seeded random numeric parameters with zeros, dense/csr/coo incidence; (B) 7 hypergraphs x seeds x "
              "K x assortative x prior rate x max_hye_size, fit with n_iter=1..8. A case is non-trivial if the model could be "
@@ -883,6 +925,7 @@ def replay(data):
     col = _Collector()
     data = dict(data)
     part = data.pop("part", None)
+    key = data.pop("key", None)
     old = np.seterr(all="ignore")
     try:
         with warnings.catch_warnings():
@@ -896,7 +939,8 @@ def replay(data):
                 return True, "nothing to replay"
     finally:
         np.seterr(**old)
-    if col.failures:
-        k, inp, exp, obs = col.failures[0]
-        return False, f"{len(col.failures)} clause(s) fail, first: {k} input={inp} expected={exp} observed={obs}"[:1500]
-    return True, "all clauses hold on this input"
+    fails = [f for f in col.failures if key is None or f[0] == key]
+    if fails:
+        k, inp, exp, obs = fails[0]
+        return False, f"{k} fails ({len(fails)} time(s) on this input): input={inp} expected={exp} observed={obs}"[:1500]
+    return True, ("clause %s holds on this input" % key) if key else "all clauses hold on this input"
